@@ -477,3 +477,149 @@ func contains2(s, sub string) bool {
 	}
 	return false
 }
+
+// C02_Compose: compositionality of the AST. For a context C (a construct with
+// one command slot) and a command X, the skeleton of C[X] must be the skeleton
+// of C[zz] with the skeleton of X in place of the placeholder command. Two
+// levels of contexts are enumerated, the leaf characters of X are symbolic.
+// This covers interactions between constructs (parenthesis bookkeeping,
+// reserved-word state, here-document and case state) at a nesting depth that
+// the variety budget of the generator does not reach.
+var composeCtx = []string{
+	"%", "( % )", "(%)", "x $(%)", "{ %; }", "if %; then a; fi", "if a; then %; fi", "if a; then b; else %; fi",
+	"while %; do a; done", "until a; do %; done", "f() { %; }", "a | %", "% | a", "% && b", "b || %",
+	"for i in a; do %; done", "case x in a) % ;; esac", "case x in (a) % ;; esac", "case x in (a|b) c ;; d) % ;; esac",
+	"% &", "x=$(%)", "( % ) >f", "{ %; } 2>&1", "a; %", "%; a", "a <<E; %\nx\nE\n", "{ %\n}",
+}
+
+var composeInner = []string{
+	"§a §b", "((1 + 2))", "( §a )", "(§a; §b)", "{ §a; }", "case §x in (§a) ((1 + 2)) ;; esac", "case §x in §a) §b ;; (§c|§d) §e ;; esac",
+	"if §a; then §b; fi", "if (§a) then §b; fi", "for i in §a §b; do §c; done", "for i do §c; done", "while §a; do §b; done",
+	"f() { §a; }", "f() ( §a )", "§a <§f >§g", "x=§1 y=§2 §a", "§a $(§b) `§c`", "§a $((1 + 2))", "§a \"$(§b)\" '§c'", "§a ${v:-§b}",
+	"case §x in esac", "§a <<F", "{ ( §a ) }", "( { §a; } )", "if §a; then §b; elif §c; then §d; else §e; fi",
+}
+
+func fill(ctx, x string) string {
+	out := ""
+	for _, r := range ctx {
+		if r == '%' {
+			out += x
+		} else {
+			out += string(r)
+		}
+	}
+	return out
+}
+
+func c02Compose(levels int) {
+	leaf := string(nd.RuneIn("a9_/é"))
+	x := ""
+	for _, r := range composeInner[nd.Choice(len(composeInner))] {
+		if r == '§' {
+			x += leaf
+		} else {
+			x += string(r)
+		}
+	}
+	c1 := composeCtx[nd.Choice(len(composeCtx))]
+	ctx := c1
+	if levels > 1 {
+		c2 := composeCtx[nd.Choice(len(composeCtx))]
+		// here-document contexts cannot be nested textually
+		if (hasNL(c1) || c1 == "% &") && c2 != "%" {
+			nd.Assume(false) // "a &; b" is not a list
+		}
+		ctx = fill(c2, c1)
+	}
+	for i := 0; i+1 < len(ctx); i++ {
+		if ctx[i] == '(' && ctx[i+1] == '(' {
+			nd.Assume(false) // "((" would spell the arithmetic command
+		}
+	}
+	body := ""
+	if len(x) > 3 && x[len(x)-3:] == "<<F" {
+		// the body of the inner here-document follows the line it stands on
+		if hasNL(ctx) || hasSubst(ctx) {
+			nd.Assume(false)
+		}
+		body = "\n$y\nF\n"
+	}
+	if x[0] == '(' {
+		for i := 0; i+1 < len(ctx); i++ {
+			if ctx[i] == '(' && ctx[i+1] == '%' {
+				nd.Assume(false) // "((" would spell the arithmetic command
+			}
+		}
+	}
+	if len(x) > 1 && x[:2] == "((" {
+		// KF-C02-arith-in-parentheses: (( is recognised only while go.sh's
+		// parenthesis count is zero; the count is reset by every case pattern.
+		// In a context prefix the only ')' are those of "f()" and of case patterns.
+		depth := 0
+		for i := 0; i < len(ctx) && ctx[i] != '%'; i++ {
+			switch {
+			case ctx[i] == '(' && i+1 < len(ctx) && ctx[i+1] == ')':
+				i++
+			case ctx[i] == '(':
+				depth++
+			case ctx[i] == ')':
+				depth = 0
+			}
+		}
+		if depth > 0 {
+			nd.Cover("arith-in-parentheses-skipped")
+			nd.Assume(false)
+		}
+	}
+	whole := fill(ctx, x) + body
+	nd.Observe(whole)
+	cx, _, ex := parseStream([]rune(x + body))
+	nd.Assert(ex == nil && len(cx) == 1, "the inner command parses on its own")
+	if ex != nil || len(cx) != 1 {
+		return
+	}
+	cp, _, ep := parseStream([]rune(fill(ctx, "zz")))
+	nd.Assert(ep == nil, "the context parses with a placeholder")
+	if ep != nil {
+		return
+	}
+	cw, _, ew := parseStream([]rune(whole))
+	nd.Assert(ew == nil, "a command is accepted in every context that admits a command")
+	if ew != nil {
+		return
+	}
+	sx := Skel(cx)
+	sx = sx[1 : len(sx)-1]
+	want := replaceOnce(Skel(cp), "(cmd (simple <lit:zz>))", sx)
+	nd.Assert(Skel(cw) == want, "the AST of a construct contains the AST of the command placed in it")
+}
+
+func hasNL(s string) bool {
+	for _, r := range s {
+		if r == '\n' {
+			return true
+		}
+	}
+	return false
+}
+
+func hasSubst(s string) bool {
+	for i := 0; i+1 < len(s); i++ {
+		if s[i] == '$' && s[i+1] == '(' {
+			return true
+		}
+	}
+	return false
+}
+
+func replaceOnce(s, old, new string) string {
+	for i := 0; i+len(old) <= len(s); i++ {
+		if s[i:i+len(old)] == old {
+			return s[:i] + new + s[i+len(old):]
+		}
+	}
+	return s
+}
+
+func C02_Compose1() { c02Compose(1) }
+func C02_Compose2() { c02Compose(2) }
